@@ -5,6 +5,7 @@ import logging
 import tempfile
 
 import numpy as np
+import pandas as pd
 
 from dask import config
 from dask.dataframe._compat import PANDAS_GE_300
@@ -108,6 +109,12 @@ def collect(p, part, meta, barrier_token):
 
 
 def set_partitions_pre(s, divisions, ascending=True, na_position="last"):
+    nas = s.isna()
+    if isinstance(getattr(s, "dtype", None), pd.CategoricalDtype):
+        # Categoricals are ordered by category, not by value: compare the codes.
+        # ``divisions`` arrives as plain values in value order.
+        divisions = pd.Series(np.sort(pd.Categorical(divisions, dtype=s.dtype).codes))
+        s = pd.Series(s.cat.codes if hasattr(s, "cat") else s.codes)
     try:
         if ascending:
             partitions = divisions.searchsorted(s, side="right") - 1
@@ -131,7 +138,6 @@ def set_partitions_pre(s, divisions, ascending=True, na_position="last"):
     partitions[(partitions < 0) | (partitions >= len(divisions) - 1)] = (
         len(divisions) - 2 if ascending else 0
     )
-    nas = s.isna()
     # We could be a ndarray already (datetime dtype)
     nas = getattr(nas, "values", nas)
     partitions[nas] = len(divisions) - 2 if na_position == "last" else 0
